@@ -2,8 +2,12 @@
 behaviours into the real code), V (validate recorded executions with TLC)."""
 import json
 import os
+import re
+import shutil
+import subprocess
+import time
 
-from vlib import Infra, log
+from vlib import Infra, log, SPEC
 
 PROPS = {}
 
@@ -222,6 +226,61 @@ def pipeline_nonvacuity(ctx):
                             % (slots, cap, r["ok"], expect_ok, r["out"][-1500:]))
 
 
+IND_ACTIONS = ["Enter", "Acquire", "LoopEnd", "PreSend", "Send", "Sent", "PreSendTerm", "SendTerm", "StartSync", "RecvBegin",
+               "Recv", "Consume", "Stage2Fail", "DrainRecv", "DrainEmpty", "Exit"]
+IND_PROPS = ["TypeOK", "NoOverwriteHeld", "NoOverwriteQueued", "FIFO", "FIFOQueue", "EmptyWhenIdle", "CompleteOnSuccess", "SyncNeverBlocks"]
+
+
+def pipeline_inductive(ctx, c, par=8, timeout=3000):
+    """M (unbounded): Apalache shows PipelineInd!IndInv inductive for the live SLOTS/CAP/SYNCMAX and ANY number of buffers,
+    failure positions and calls -- one obligation per action, one per property, run in parallel -- plus a negative control
+    (CAP = SLOTS-1 must break NoOverwriteHeld).  Returns True iff everything was proved."""
+    import concurrent.futures as cf
+    base = ctx.dir("ind")
+    src = open(os.path.join(SPEC, "PipelineInd.tla")).read()
+
+    def text(cap):
+        t = re.sub(r"^SLOTS == \d+", "SLOTS == %d" % c["slots"], src, flags=re.M)
+        t = re.sub(r"^CAP == \d+", "CAP == %d" % cap, t, flags=re.M)
+        return re.sub(r"^SYNCMAX == \d+", "SYNCMAX == %d" % max(c["syncmax"], 0), t, flags=re.M)
+
+    def job(name, init, nxt, inv, length, cap):
+        d = os.path.join(base, name)
+        os.makedirs(d, exist_ok=True)
+        shutil.copy(os.path.join(SPEC, "Pipeline.tla"), d)
+        open(os.path.join(d, "PipelineInd.tla"), "w").write(text(cap))
+        t0 = time.time()
+        p = subprocess.run(["timeout", str(timeout), "apalache-mc", "check", "--cinit=CInit", "--init=" + init, "--next=" + nxt,
+                            "--inv=" + inv, "--length=%d" % length, "--out-dir=" + os.path.join(d, "out"), "PipelineInd.tla"],
+                           cwd=d, capture_output=True, text=True, env=dict(os.environ, TMPDIR=d, JVM_ARGS="-Xmx3g"))
+        m = re.search(r"The outcome is: (\w+)", p.stdout + p.stderr)
+        shutil.rmtree(d, ignore_errors=True)
+        return name, (m.group(1) if m else "rc=%d" % p.returncode), time.time() - t0
+
+    jobs = [("base", "Init", "NextAny", "IndInv", 0, c["cap"])]
+    jobs += [("step-" + a, "IndInit", "Step" + a, "IndInv", 1, c["cap"]) for a in IND_ACTIONS]
+    jobs += [("prop-" + p_, "IndInit", "NextAny", "Prop" + p_, 0, c["cap"]) for p_ in IND_PROPS]
+    jobs += [("control-cap", "IndInit", "NextAny", "PropNoOverwriteHeld", 0, c["slots"] - 1)]
+    t0 = time.time()
+    res = {}
+    with cf.ThreadPoolExecutor(par) as ex:
+        for name, outcome, dt in ex.map(lambda j: job(*j), jobs):
+            res[name] = outcome
+    never = [k for k, v in res.items() if k.startswith("step-") and v == "Deadlock"]      # action not enabled in any IndInv state
+    bad = [k for k, v in res.items() if k != "control-cap" and v != "NoError" and k not in never]
+    control_ok = res["control-cap"] == "Error"
+    proved = not bad and control_ok
+    log("[apalache] PipelineInd: %d obligations in %.0fs: %s; never enabled under IndInv: %s; control (CAP=SLOTS-1 breaks NoOverwriteHeld): %s%s" % (
+        len(jobs), time.time() - t0, "all proved" if not bad else "NOT proved: %s" % {k: res[k] for k in bad},
+        [k[5:] for k in never] or "none", "ok" if control_ok else res["control-cap"],
+        "" if proved else "  (advisory: the verdict comes from the replayed schedules)"))
+    ctx.counters["apalache_inductive_obligations"] = len(jobs)
+    ctx.counters["apalache_inductive_proved"] = int(proved)
+    ctx.extra["unbounded_model_proof"] = {"module": "PipelineInd.tla", "constants": {"SLOTS": c["slots"], "CAP": c["cap"], "SYNCMAX": c["syncmax"]},
+                                          "outcomes": res, "proved": proved}
+    return proved
+
+
 def simulated_picks(ctx, c, num, depth):
     """Behaviours from TLC -simulate, reduced to the sequence of actors that move."""
     import re
@@ -287,7 +346,8 @@ def pipeline_trace_validate(ctx, c, trace_path, prop_id):
 def c07(ctx):
     ctx.rule = ("M: Pipeline.tla model-checked with the ring size, channel capacity and sync threshold READ FROM THE RUNNING CODE "
                 "(NoOverwrite, FIFO, EmptyWhenIdle, termination under weak fairness, every stage-1 abort x stage-2 failure position), "
-                "plus a SLOTS x CAP sweep showing the invariants fail exactly when CAP > SLOTS-2; G: the two real stage goroutines are "
+                "plus a SLOTS x CAP sweep showing the invariants fail exactly when CAP > SLOTS-2, plus (thorough) PipelineInd.tla: an "
+                "inductive invariant discharged by Apalache action by action for ANY number of buffers, failure positions and calls; G: the two real stage goroutines are "
                 "stepped gate by gate (verif hooks) through lagging-consumer, lagging-producer, alternating, random and TLC-simulated "
                 "schedules on irregular valid/invalid documents of 17-64 index buffers; V: every recorded hand-off trace (forced and "
                 "free-running, GOMAXPROCS 1-16, jitter) is replayed by TLC against Pipeline's actions with all invariants evaluated at "
@@ -299,6 +359,8 @@ def c07(ctx):
     if not model_ok:
         log("[C07] Pipeline.tla does NOT hold with the live constants; replaying schedules to see whether the code misbehaves")
     pipeline_nonvacuity(ctx)
+    if not q:
+        pipeline_inductive(ctx, c)
     picks, npicks = simulated_picks(ctx, c, 40 if q else 400, 400)
     d = ctx.dir("pipe")
     t1 = os.path.join(d, "forced.ndjson")
